@@ -46,13 +46,14 @@ Definition ref_sc_security_body (method level : N) : bytes := le32 method ++ le3
 Definition ref_sc_security (method level : N) : bytes :=
   ref_block 3074 (ref_sc_security_body method level).                        (* 0x0C02 *)
 
-(* TS_UD_SC_NET: MCS I/O channel 1003, channel count, the ids, and two octets of padding
-   when the count is odd (the block is a multiple of four octets) *)
-Definition ref_sc_net_body (ids : list N) : bytes :=
-  le16 1003 ++ le16 (nlen ids) ++ flat_map le16 ids ++ (if N.odd (nlen ids) then [0; 0] else []).
+(* TS_UD_SC_NET: the MCS channel id of the I/O channel (chosen by the server; 1003 in practice),
+   channel count, the ids, and two octets of padding when the count is odd (the block is a
+   multiple of four octets) *)
+Definition ref_sc_net_body (io : N) (ids : list N) : bytes :=
+  le16 io ++ le16 (nlen ids) ++ flat_map le16 ids ++ (if N.odd (nlen ids) then [0; 0] else []).
 
-Definition ref_sc_net (ids : list N) : bytes :=
-  ref_block 3075 (ref_sc_net_body ids).                                      (* 0x0C03 *)
+Definition ref_sc_net (io : N) (ids : list N) : bytes :=
+  ref_block 3075 (ref_sc_net_body io ids).                                      (* 0x0C03 *)
 
 Definition t124_key : bytes := [0; 5; 0; 20; 124; 0; 1].
 
